@@ -243,7 +243,10 @@ def path(c, job):
         env.N = cfg["N"]
         n_it = cfg["N"]
         # optionally disable() is called from the per-iteration function in the middle of the period
-        dis_at = c.choose("disable_at", n_it + 1)  # 0: never
+        # or the robot program is told to end (endCompetition) while run() is looping
+        ev = c.choose("disable_at", 2 * n_it + 1)  # 0: never
+        dis_at = ev if ev <= n_it else 0
+        end_at = ev - n_it if ev > n_it else 0
         cnt = [0]
 
         def iter_fn():
@@ -251,11 +254,15 @@ def path(c, job):
             if cnt[0] == dis_at:
                 c.reach("disable-inside-run")
                 s.disable()
+            if cnt[0] == end_at:
+                c.reach("end-competition-inside-run")
+                s.endCompetition()
 
         s.run(0.02, iter_fn)
         if chosen:
-            k = n_it if dis_at == 0 else dis_at
+            k = dis_at or end_at or n_it
             exp = [("on_enable", chosen)] + [("on_iteration", chosen)] * k + [("on_disable", chosen)]
+        c.prove("C14.life run-stops-iterating-after-endCompetition", cnt[0] == (end_at or n_it), info=dict(iterations=cnt[0], end_at=end_at))
         c.reach("run-period")
     else:
         active = False
@@ -375,7 +382,7 @@ class C14(Spec):
 
     def reach_required(self, tier):
         return ["package-missing", "faulty-no-fms", "tolerated-with-fms", "healthy-package", "one-default", "dashboard-selects", "run-period",
-                "periodic-after-disable", "mode-chosen", "none-chosen", "two-iterations", "second-period", "start-without-disable", "disable-inside-run", "elapsed-time-checked"]
+                "periodic-after-disable", "mode-chosen", "none-chosen", "two-iterations", "second-period", "start-without-disable", "disable-inside-run", "end-competition-inside-run", "elapsed-time-checked"]
 
     def path_fn(self, c, job):
         path(c, job)
